@@ -157,6 +157,13 @@ def run(ctx):
             for d in range(12):
                 v = (v << 4) | (hi if (bits >> (11 - d)) & 1 else lo)
             strings.append(tuple((v >> (6 * (7 - i))) & 63 for i in range(8)))
+    # identifications the source of the tree under test writes down (upper-case words of up to 8 characters)
+    import re
+    from engine.util import source_words
+    for wd in sorted(x for x in source_words()["strs"] if re.fullmatch(r"[A-Z0-9 _]{1,8}", x)):
+        t = wd.replace("_", " ")
+        strings.append(tuple(codes_of(t.ljust(8).replace(" ", "_"))))
+        strings.append(tuple(codes_of(t.rjust(8).replace(" ", "_"))))
     rng = random.Random(ctx.seed)
     strings += [tuple(rng.choice(LEGAL_CODES) for _ in range(8)) for _ in range(2000)]
     strings += [tuple(rng.randrange(64) for _ in range(8)) for _ in range(500)]
